@@ -626,6 +626,26 @@ func (x *Exec) applyContract(s *State, in *ssa.Call, fc *FuncContract, callee *s
 				env.vars["self"] = rv
 			}
 		}
+		// variables the callee closes over, as the caller holds them
+		if mc, ok := in.Common().Value.(*ssa.MakeClosure); ok && len(mc.Bindings) == len(callee.FreeVars) {
+			for i, fv := range callee.FreeVars {
+				if _, shadow := env.vars[fv.Name()]; shadow {
+					continue
+				}
+				pt, ok := fv.Type().(*types.Pointer)
+				if !ok {
+					continue
+				}
+				cell := x.valueOf(s, mc.Bindings[i])
+				if cell.K != vScalar {
+					continue
+				}
+				if ci := x.p.cellOfFreeVar(fv); ci != nil {
+					cell.Key = ci.key
+				}
+				bind(fv.Name(), x.load(s, cell, pt.Elem(), false), pt.Elem())
+			}
+		}
 	} else {
 		if recv != nil {
 			env.vars["self"] = *recv
@@ -703,6 +723,9 @@ func (x *Exec) applyContract(s *State, in *ssa.Call, fc *FuncContract, callee *s
 	// only switched on for functions whose contract asks for it (`theory ...`): the safety sweep of
 	// the other functions does not need it and stays small.
 	streams := x.fnc != nil && x.fnc.Theory
+	if streams {
+		x.keepOwnNavigators(s, pre, args, recv, fc.KeepsCursor)
+	}
 	// ghost history variables: updated by the call rule itself
 	for _, cl := range fc.clauses("ghost") {
 		if streams {
@@ -716,7 +739,7 @@ func (x *Exec) applyContract(s *State, in *ssa.Call, fc *FuncContract, callee *s
 		}
 	}
 	for _, cl := range append(fc.clauses("ensures"), fc.clauses("ensures-assumed")...) {
-		if cl.Kind == "ensures-assumed" && !streams && cl.Label != "deterministic" && cl.Label != "client-loader" {
+		if cl.Kind == "ensures-assumed" && !streams && cl.Label != "deterministic" && cl.Label != "client-loader" && cl.Label != "itcur-def" {
 			continue
 		}
 		if ps, excl := cl.exclusive(); excl && !hasProp(ps, x.prop) {
@@ -734,6 +757,38 @@ func (x *Exec) applyContract(s *State, in *ssa.Call, fc *FuncContract, callee *s
 	}
 	if fc.Trusted {
 		x.assumed["trusted contract: "+fc.Key] = true
+	}
+	// a method called directly still owes what its interface promises (proved: refines)
+	if callee != nil && callee.Signature.Recv() != nil {
+		rt0 := callee.Signature.Recv().Type()
+		for key, ic := range x.p.Ctr.Ifaces {
+			i := strings.LastIndex(key, ".")
+			if key[i+1:] != callee.Name() {
+				continue
+			}
+			it := x.p.lookupType(key[:i])
+			if it == nil || !types.Implements(rt0, it.Underlying().(*types.Interface)) {
+				continue
+			}
+			env2 := &specEnv{x: x, s: s, where: "contract " + ic.Key, vars: map[string]sval{}, oldHeap: pre}
+			env2.vars["self"] = sval{v: scalar(x.box(s, args[0], rt0)), typ: it}
+			for j, pn := range ic.Params {
+				if j+1 < len(args) && pn != "" && pn != "_" {
+					env2.vars[pn] = sval{v: args[j+1], typ: callee.Params[j+1].Type()}
+				}
+			}
+			if rt.Len() == 1 {
+				env2.vars["result"] = sval{v: res, typ: rt.At(0).Type()}
+			}
+			for _, cl := range ic.clauses("ensures") {
+				if ps, excl := cl.exclusive(); excl && !hasProp(ps, x.prop) {
+					continue
+				}
+				if t, err := env2.evalBool(cl.Expr); err == nil {
+					s.assume(t)
+				}
+			}
+		}
 	}
 	return res
 }
@@ -854,6 +909,51 @@ func fieldMayMatch(pats []string, fld string) bool {
 		}
 	}
 	return false
+}
+
+// keepOwnNavigators: navigators this function copied for itself and did not hand to the callee stay
+// where they are; with keepsCursor (assumed for iterator closures: they move only navigators they
+// created) the context cursor of every iterator in scope stays put as well.
+func (x *Exec) keepOwnNavigators(s *State, pre map[string]T, args []Val, recv *sval, keepsCursor bool) {
+	old, ok1 := pre["navpos"]
+	cur, ok2 := s.heap["navpos"]
+	if !ok1 || !ok2 || old.S == cur.S {
+		return
+	}
+	passed := func(t T) bool {
+		for _, a := range args {
+			if a.K == vScalar && strings.Contains(a.T.S, t.S) {
+				return true
+			}
+		}
+		if recv != nil && strings.Contains(recv.v.T.S, t.S) {
+			return true
+		}
+		return false
+	}
+	for _, nv := range s.navCopies {
+		if passed(nv) {
+			continue
+		}
+		r := mk(SInt, "iptr", nv)
+		s.assume(Eq(Select(cur, r, SPos), Select(old, r, SPos)))
+	}
+	if keepsCursor && len(s.frames) > 0 {
+		x.assumed["iterator closures move only navigators they created (never the caller's context cursor)"] = true
+		fr := s.frames[0]
+		for i, p := range fr.fn.Params {
+			if typeStr(p.Type()) != "iterator" {
+				continue
+			}
+			env := &specEnv{x: x, s: s, where: "keeps-cursor", vars: map[string]sval{"t": {v: fr.args[i], typ: p.Type()}}}
+			env.oldHeap = pre
+			nowv, err1 := env.evalVal("pos(cur(t))")
+			oldv, err2 := env.evalVal("old(pos(cur(t)))")
+			if err1 == nil && err2 == nil {
+				s.assume(Eq(nowv.v.T, oldv.v.T))
+			}
+		}
+	}
 }
 
 // applyGhost performs `ghost NAME(self) = expr`.
